@@ -21,12 +21,15 @@ from dlv.core import ShardCtx, ShardResult
 PROPERTY = 'C16'
 LEVEL = 'fault_enumeration'
 RULE = ('(A) route table x {existing, missing-piece streams: clear-only, no audio, no timing reference, unindexed file, empty} '
-        'x every registered cgi name x 24 type-confusion values (empty, none, negative, 0, huge, float, list, wrong enum, '
+        'x every registered cgi name x 38 type-confusion values (empty, none, negative, 0, huge, float, list, wrong enum, '
         'wrong separator, unicode, percent-escapes, repeated key) singly + sampled pairs; (B) truncate at every box boundary +-1, '
         'header bit flips, size := 0/1/7/2^32-1/beyond, type := random, sample_count := 2^32-1 on fixture init/media/whole '
         'files -> parser (eager, lazy) and upload/index/serve; (C) {v,a,t,m}err specs x failures in {absent,0,1,3} x interleaved '
-        'request sequences. Non-trivial = a fault was injected and the outcome judged; distinct = (part, route or operator, '
-        'option name, value class, outcome class).')
+        'request sequences; (A2) 23 route templates x 18 boundary / type-confused values in the path parameters (segment number '
+        'and time, representation, stream, manifest and mode names, patch publish time, period and stream primary keys); '
+        '(D) every management operation of the catalogue sent by an authorised user with one field of its JSON / form body '
+        'replaced by a type-confused value or removed. Non-trivial = a fault was injected and the outcome judged; distinct = '
+        '(part, route or operator, option name, value class, outcome class).')
 ASSUMPTIONS = [
     'the only legitimate 5xx are synthetic ones asked for through {v,a,t,m}err; part (A) therefore never sends a 5xx code in those options',
     'termination: 6 s wall watchdog = suspect only; verdict = exceeding 3,000,000 line/jump events when re-run alone (legitimate requests need < 150,000)',
